@@ -7,6 +7,7 @@ import (
 	"fmt"
 	"math/big"
 	"runtime"
+	"sync"
 	"testing"
 	"time"
 
@@ -45,7 +46,7 @@ var (
 	elemOps = []string{"e.base", "e.identity", "e.set", "e.copy", "e.add", "e.add", "e.sub", "e.sub", "e.double", "e.negate", "e.mul", "e.addnil", "e.subnil",
 		"e.mulnil", "e.decode", "e.decodeunc", "e.decodebad", "e.coords", "e.h2g", "e.e2g", "e.copymut", "e.repr", "e.repr", "gc"}
 	scalOps = []string{"s.zero", "s.one", "s.minusone", "s.setu64", "s.set", "s.setnil", "s.copy", "s.add", "s.sub", "s.mul", "s.square", "s.invert", "s.pow",
-		"s.decode", "s.decodebad", "s.h2s", "s.random", "s.cselect", "s.addnil", "s.mulnil", "s.copymut"}
+		"s.decode", "s.decodebad", "s.h2s", "s.random", "s.cselect", "s.addnil", "s.mulnil", "s.copymut", "s.value", "s.value"}
 )
 
 func genAct(t *rapid.T) act {
@@ -73,6 +74,12 @@ func genAct(t *rapid.T) act {
 		a.Data = hex.EncodeToString(d)
 	case "s.decodebad":
 		a.Data = hex.EncodeToString(genScalarBytes(t))
+	case "s.value": // a value from the boundary-biased generator or from the dictionary-aimed list
+		v := gen.Int(ref.N).Draw(t, "sv")
+		if df := dictFixedN(); len(df) > 0 && rapid.Bool().Draw(t, "fromDict") {
+			v = df[gen.Pick(t, "dfi", len(df))]
+		}
+		a.Data = gen.H(v)
 	case "e.h2g", "e.e2g", "s.h2s":
 		a.Data = hex.EncodeToString(gen.Bytes(0, 40).Draw(t, "msg"))
 	case "s.random":
@@ -102,6 +109,8 @@ var c10dst = []byte("VERIF-C10-history-dst")
 var c10verbs = "%s %x"
 
 var c10base = secp256k1.Base()
+
+var dictFixedN = sync.OnceValue(func() []*big.Int { return gen.DictFixed(ref.N, 1) })
 
 var c10one = secp256k1.NewScalar().One()
 
@@ -358,6 +367,12 @@ func runC10(c caseC10, o *gen.Obs) error {
 				return gen.Fail("history/decode-own-encoding", "step %d: Decode(Encode(s%d)) failed: %v", step, x, err)
 			}
 			st.MS[r] = new(big.Int).Set(st.MS[x])
+		case "s.value":
+			v := gen.B(a.Data)
+			if err := st.S[r].Decode(ref.Bytes32(v)); err != nil {
+				return gen.Fail("history/decode-acceptance", "step %d: Scalar.Decode(%x) rejected: %v", step, v, err)
+			}
+			st.MS[r] = v
 		case "s.decodebad":
 			data := gen.HexBytes(a.Data)
 			v := ref.OS2IP(data)
